@@ -57,6 +57,11 @@ func (c *caseOrderChecker) checkTypeSwitch(s *ast.TypeSwitchStmt) {
 		cc := cc.(*ast.CaseClause)
 		for _, x := range cc.List {
 			typ := c.ctx.TypeOf(x)
+			if b, ok := typ.(*types.Basic); ok && b.Kind() == types.UntypedNil {
+				// `case nil` is never shadowed by an interface case:
+				// a nil interface value matches no type.
+				continue
+			}
 			if typ == linter.UnknownType {
 				c.warnUnknownType(cc, x)
 				return
